@@ -192,7 +192,7 @@ func c16FindColor(c *Ctx, p *Prog) {
 			}
 		case *ssa.UnOp:
 			// palette[i] with range index
-			if ia, ok := x.X.(*ssa.IndexAddr); ok && valName(ia.X) == "palette" && isRangeIndex(ia.Index) {
+			if ia, ok := x.X.(*ssa.IndexAddr); ok && valName(ia.X) == "palette" && (isRangeIndex(ia.Index) || (isFullCountedIndex(ia.Index, ia.X) && countsFromZeroByOne(ia.Index))) {
 				return
 			}
 			okRet = false
@@ -217,6 +217,10 @@ func c16FindColor(c *Ctx, p *Prog) {
 			isPal := false
 			for _, in := range h.Instrs {
 				if bo, ok := in.(*ssa.BinOp); ok && isRangeIndex(bo) {
+					isPal = true
+				}
+				// for i := 0; i < len(palette); i++
+				if phi, ok := in.(*ssa.Phi); ok && countsFromZeroByOne(phi) && isFullCountedIndex(phi, fn.Params[1]) {
 					isPal = true
 				}
 			}
@@ -336,11 +340,7 @@ func c16GetColor(c *Ctx, p *Prog) {
 		case "strconv.ParseUint":
 			if b, isB := constInt(cc.Args[1]); isB && b == 16 {
 				ok, detail = true, "strconv.ParseUint(_, 16, _)"
-				for _, g := range guardsAt(in.Block()) {
-					if g.L == "len(name)" && g.Op == "==" && g.R == "7" {
-						okLen = true
-					}
-				}
+				okLen, _ = cssFormGuards(in.Block())
 			}
 		case "strconv.ParseInt", "strconv.Atoi":
 			ok, detail = false, calleeName(cc)+" accepts a leading sign: \"#-00001\" becomes a colour"
@@ -702,15 +702,7 @@ func c16Text(c *Ctx, p *Prog) {
 			pd += "; the parsed value does not reach NewHexColor through conversions only"
 		}
 		// guards: len(name) == 7 and name[0] == '#'
-		hasLen, hasHash := false, false
-		for _, g := range guardsAt(in.Block()) {
-			if g.L == "len(name)" && g.Op == "==" && g.R == "7" {
-				hasLen = true
-			}
-			if strings.HasPrefix(g.L, "name[0]") && g.Op == "==" && (g.R == "35" || g.R == "'#'") {
-				hasHash = true
-			}
-		}
+		hasLen, hasHash := cssFormGuards(in.Block())
 		if !hasLen || !hasHash {
 			okParse = false
 			pd += fmt.Sprintf("; guards len(name)==7: %v, name[0]=='#': %v", hasLen, hasHash)
@@ -902,4 +894,33 @@ func negTok(op token.Token) token.Token {
 		return token.EQL
 	}
 	return op
+}
+
+// cssFormGuards: what is known about `name` where block b runs — that it is seven bytes long
+// (len(name) == 7, or len(name[k:]) == 7-k for the rest after a k-byte prefix) and that it starts with
+// '#' (name[0] == '#', or strings.HasPrefix(name, "#")).
+func cssFormGuards(b *ssa.BasicBlock) (hasLen, hasHash bool) {
+	for _, g := range guardsAt(b) {
+		if g.Op != "==" {
+			continue
+		}
+		if g.L == "len(name)" && g.R == "7" {
+			hasLen = true
+		}
+		var k, n int
+		if c, err := fmt.Sscanf(g.L+" "+g.R, "len(name[%d:]) %d", &k, &n); err == nil && c == 2 && k+n == 7 {
+			hasLen = true
+		}
+		if strings.HasPrefix(g.L, "name[0]") && (g.R == "35" || g.R == "'#'") {
+			hasHash = true
+		}
+	}
+	for _, g := range rawGuardsAt(b) {
+		if call, ok := g.Cond.(*ssa.Call); ok && g.Positive && calleeName(&call.Call) == "strings.HasPrefix" && len(call.Call.Args) == 2 {
+			if lit, isLit := constString(call.Call.Args[1]); isLit && lit == "#" && valName(call.Call.Args[0]) == "name" {
+				hasHash = true
+			}
+		}
+	}
+	return
 }
